@@ -133,6 +133,34 @@ func runC02(ctx *Ctx) error {
 			}
 		}
 	}
+	// a storage error inside a block of several accepted messages (the failing one first, in the
+	// middle, last): nothing the peer did not store may be reported sent (seeded change C02-d went
+	// on receiving after the error and forgot it)
+	for bi := 0; bi < ctx.N(3, 12); bi++ {
+		sc := r.Scenario(0)
+		sc.A.Outbox, sc.B.Outbox = nil, nil
+		sc.B.Policy = map[string]fbb.ProposalAnswer{}
+		for k := 0; k < 3+bi%3; k++ {
+			sc.A.Outbox = append(sc.A.Outbox, r.Message(sc.A.Mycall, fmt.Sprintf("B%d%s", k, r.StringFrom(alnumUpper, 8))))
+		}
+		for _, m := range sc.A.Outbox {
+			cb := sc.B
+			cb.Fail = map[string]bool{m.MID(): true}
+			p := runPair(sc.A, cb, 0, -1, -1)
+			cs := map[string]interface{}{"block_scenario": bi, "messages": len(sc.A.Outbox), "process_inbound_fails_at": m.MID()}
+			res.Eval(fmt.Sprintf("blk%d:fail:%s", bi, m.MID()), true)
+			res.Count("storage-error-in-block")
+			if p.A.Res == "hang" || p.B.Res == "hang" || p.A.Res == "panic" || p.B.Res == "panic" {
+				res.Fail(Failure{Kind: "oracle", Site: "storage-error-hang-or-panic", Case: cs})
+			}
+			if p.A.Handler.sent[m.MID()] > 0 {
+				res.Fail(Failure{Kind: "oracle", Site: "storage-error-marked-sent", Case: cs})
+			}
+			for _, b := range c02Safety(pairScenario{A: sc.A, B: cb}, p.A.Handler, p.B.Handler) {
+				res.Fail(Failure{Kind: "oracle", Site: "cut-safety", Case: cs, Detail: b})
+			}
+		}
+	}
 	// convergence histories on persistent handlers
 	nh := ctx.N(25, 300)
 	for hi := 0; hi < nh; hi++ {
